@@ -104,6 +104,41 @@ try:
                     st.set_last_revision_info(N, revs[-1])
             st = Branch.open(st_dir)
             checked += check_stacked(st, how, split)
+    # an uncooperative sender: it answers the sink's request for the missing parent inventories with nothing. The push must then be
+    # refused (nothing changed) - or, if it is accepted, the stacked repository alone must still satisfy the stacking contract
+    from breezy.bzr import groupcompress_repo as _gc
+    for split in range(1, N):
+        for adds_file in (False, True):
+            tried += 1
+            name = "unco_%d_%s" % (split, adds_file)
+            work_dir = os.path.join(base, "w_" + name)
+            work = src.branch.controldir.sprout(work_dir, revision_id=revs[split]).open_workingtree()
+            if adds_file:
+                open(os.path.join(work_dir, "newfile"), "w").write("n\n"); work.add(["newfile"])
+                work.commit("adds a file", rev_id=b"x-%d" % split, committer="t <t@e.x>")
+            fb_dir = os.path.join(base, "fb_" + name)
+            fb = src.branch.controldir.sprout(fb_dir, revision_id=revs[split - 1]).open_branch()
+            st_dir = os.path.join(base, "st_" + name); os.mkdir(st_dir)
+            st = controldir.ControlDir.create_branch_convenience(st_dir, format=fmt, force_new_repo=True)
+            st.set_stacked_on_url(fb.base)
+            st = Branch.open(st_dir)
+            before_tip = st.last_revision()
+            real = _gc.GroupCHKStreamSource.get_stream_for_missing_keys
+            _gc.GroupCHKStreamSource.get_stream_for_missing_keys = lambda self, missing_keys: iter(())
+            refused = False
+            try:
+                try:
+                    work.branch.push(st)
+                except Exception:  # noqa  (BzrCheckError: refused)
+                    refused = True
+            finally:
+                _gc.GroupCHKStreamSource.get_stream_for_missing_keys = real
+            st = Branch.open(st_dir)
+            if refused:
+                if st.last_revision() != before_tip:
+                    verdict(True, "a refused push into a stacked branch moved its tip", input=dict(split_after=split, adds_file=adds_file))
+                continue
+            checked += check_stacked(st, "push from a sender that sends no missing parent inventories", split)
     verdict(False, "no failing split among %d (%d revisions held by stacked repositories checked without their fallback)" % (tried, checked))
 finally:
     shutil.rmtree(base, ignore_errors=True)
